@@ -153,8 +153,8 @@ func c12ErrFn(err error, p i.SafePrinter, verb rune) {
 	p.UnsafeString(err.Error())
 }
 
-var c12Big = strings.Repeat("x", 70000)
-var c12BigMarked = strings.Repeat("0123456789‹abcdefghi›\n", 3500) // 70k+ with markers and line feeds to escape
+var c12Big = strings.Repeat("x", 66000)                           // more than 64KiB: the limit above which free() drops a printer
+var c12BigMarked = strings.Repeat("0123456789‹abcdefghi›\n", 400) // 10k with markers and line feeds to escape
 
 // c12Payload: a panic payload whose String() panics `left` times before it calms down; when the printer
 // tries to print it while reporting a panic, the second panic propagates out of the printer.
@@ -215,9 +215,9 @@ func (o c12SF) SafeFormat(w SafePrinter, verb rune) {
 		e.pause()
 		w.UnsafeString("after")
 	case "big":
-		w.Print(c12Big)
 		w.SafeString(SafeString(c12Big[:1000]))
 		w.Printf("%s", c12BigMarked)
+		w.Print(c12Big)
 	case "panic":
 		w.SafeString("pre")
 		panic("sfboom")
@@ -524,17 +524,14 @@ func c12CatalogueAll() []*c12Call {
 	add("P", "P38", `Sprint(Formatter{flags}, 1.5, Formatter{flags})`, func(e *c12Env) RedactableString {
 		return Sprint(fm(e, "flags"), 1.5, fm(e, "flags"))
 	})
-	// KNOWN DEFECT (kept as a check, skipped by default): fmt.State.Width()/Precision() of the library return
-	// a STALE number (with ok=false) left behind by an earlier directive, possibly of an earlier call that used
-	// the same pooled printer: internal/rfmt/format.go clearflags() resets the flags but not wid/prec (the
-	// standard library's clearflags resets both). A Formatter that prints the number without looking at ok
-	// (legal, if careless) therefore produces history-dependent output, e.g.
-	//   Sprintf("%8.3d", 1); Sprint(Formatter{wid, _ := s.Width(); fmt.Fprint(s, wid)})  gives 8, in a fresh process 0.
-	// Run with C12_KNOWN_DEFECTS=1 to see it reported.
+	// Finding F7 (fixed in /repo): fmt.State.Width()/Precision() returned a STALE number (with ok=false) left
+	// behind by an earlier call that used the same pooled printer (fmt.init did not reset wid/prec). A Formatter
+	// that prints the number without looking at ok (legal, if careless) produced history-dependent output, e.g.
+	//   Sprintf("%8.3d", 1); Sprint(Formatter{wid, _ := s.Width(); fmt.Fprint(s, wid)})  gave 8, in a fresh process 0.
+	// This probe stays in the catalogue so that the defect is reported again if it returns.
 	add("P", "P38x", `Sprint(Formatter{wid, wok := s.Width(); prec, pok := s.Precision(); fmt.Fprintf(s, "%d/%v/%d/%v...", wid, wok, prec, pok, ...)}, 1.5)`, func(e *c12Env) RedactableString {
 		return Sprint(fm(e, "rawflags"), 1.5)
 	})
-	cs[len(cs)-1].known = "stale Width()/Precision() numbers"
 	add("P", "P39", `Sprintf("%x %X % x|%v %s", "hi‹", []byte("yo"), "ab", e1, cerr)`, func(e *c12Env) RedactableString {
 		return Sprintf("%x %X % x|%v %s", "hi‹", []byte("yo"), "ab", e.e1, e.cerr)
 	})
@@ -614,22 +611,22 @@ func c12CatalogueAll() []*c12Call {
 	add("H", "H13", `Sprint(Unsafe(Formatter{panic(payload that never calms down)}))  // panic propagates under Unsafe`, func(e *c12Env) RedactableString {
 		return Sprint("lit", Unsafe(fm(e, "panic3")))
 	})
-	add("H", "H14", `Sprintf("%s|%v", strings.Repeat("x", 70000), strings.Repeat("0123456789‹abcdefghi›\n", 3500))`, func(e *c12Env) RedactableString {
+	add("H", "H14", `Sprintf("%s|%v", strings.Repeat("x", 66000), strings.Repeat("0123456789‹abcdefghi›\n", 400))`, func(e *c12Env) RedactableString {
 		return Sprintf("%s|%v", c12Big, c12BigMarked)
 	})
-	add("H", "H15", `Sprintf("%70000d|%-70000s|%070000.3f", 1, Safe("x"), 2.5)`, func(e *c12Env) RedactableString {
-		return Sprintf("%70000d|%-70000s|%070000.3f", 1, Safe("x"), 2.5)
+	add("H", "H15", `Sprintf("%-300s|%0300.3f|%66000d", Safe("x"), 2.5, 1)`, func(e *c12Env) RedactableString {
+		return Sprintf("%-300s|%0300.3f|%66000d", Safe("x"), 2.5, 1)
 	})
-	add("H", "H16", `Sprint(Safe(strings.Repeat("x", 70000)), RedactableString(big), Unsafe(SafeString(big)))`, func(e *c12Env) RedactableString {
-		return Sprint(Safe(c12Big), RedactableString(c12BigMarked), Unsafe(SafeString(c12Big)))
+	add("H", "H16", `Sprint(RedactableString(bigMarked), Unsafe(SafeString(bigMarked)), Safe(strings.Repeat("x", 66000)))`, func(e *c12Env) RedactableString {
+		return Sprint(RedactableString(c12BigMarked), Unsafe(SafeString(c12BigMarked)), Safe(c12Big))
 	})
-	add("H", "H17", `Sprintf("%v|%v", SafeFormatter{w.Print(big); w.SafeString(big[:1000]); w.Printf("%s", bigMarked)}, Safe(same))`, func(e *c12Env) RedactableString {
-		return Sprintf("%v|%v", sf(e, "big", nil), Safe(sf(e, "big", nil)))
+	add("H", "H17", `Sprintf("%v", Safe(SafeFormatter{w.SafeString(big[:1000]); w.Printf("%s", bigMarked); w.Print(big)}))`, func(e *c12Env) RedactableString {
+		return Sprintf("%v", Safe(sf(e, "big", nil)))
 	})
-	add("H", "H18", `StringBuilder{Print(big); Printf("%s", Safe(big)); SafeInt(1); Print(Safe(SafeFormatter{Printf}))}.RedactableString()`, func(e *c12Env) RedactableString {
+	add("H", "H18", `StringBuilder{Printf("%s|%d", Safe(bigMarked), 3); Print(big); SafeInt(1); Print(Safe(SafeFormatter{Printf}))}.RedactableString()`, func(e *c12Env) RedactableString {
 		var b StringBuilder
-		b.Print(c12Big)
 		b.Printf("%s|%d", Safe(c12BigMarked), 3)
+		b.Print(c12Big)
 		b.SafeInt(1)
 		b.Print(Safe(sf(e, "printf", 2)))
 		return b.RedactableString()
@@ -759,12 +756,15 @@ type c12Runner struct {
 	rounds int
 	held   []c12Held
 	// measured
-	blocks, calls, rechecks            int
-	ntHistory, ntRecycled, ntCrossG    int
-	seqClean                           bool // after a failure, empty the pool so that later reports are attributable
+	blocks, calls, rechecks         int
+	ntHistory, ntRecycled, ntCrossG int
+	seqClean                        bool // after a failure, empty the pool so that later reports are attributable
 }
 
 func (r *c12Runner) histText(hist []int) string {
+	if len(hist) == 0 {
+		return "history{none: only the probes that ran earlier in the block}"
+	}
 	var parts []string
 	for _, h := range hist {
 		parts = append(parts, r.s.calls[h].text)
@@ -805,10 +805,13 @@ func (r *c12Runner) block(hist []int) bool {
 	}
 	e.inHistory = false
 	for round := 0; round < r.rounds && ok; round++ {
-		for _, p := range s.probes {
-			round, p := round, p
+		// the probe that comes first (and so receives the printer the history freed last) changes from
+		// round to round and from block to block
+		off := (round*11 + r.blocks*7) % len(s.probes)
+		for j := range s.probes {
+			round, p := round, s.probes[(j+off)%len(s.probes)]
 			one(p, func() string {
-				return fmt.Sprintf("%s; then (round %d of all probes) %s", r.histText(hist), round+1, s.calls[p].text)
+				return fmt.Sprintf("%s; then all probes (%d rounds, rotating order); failing in round %d: %s", r.histText(hist), r.rounds, round+1, s.calls[p].text)
 			})
 			if !ok && s.stopped() {
 				break
@@ -935,6 +938,8 @@ func c12ChildMain(mode string) {
 	}
 	out := map[string]c12ChildVal{}
 	for _, k := range order {
+		runtime.GC()
+		runtime.GC()
 		out[calls[k].name] = c12Digest(e, c12Do(calls[k], e))
 	}
 	m, _ := json.Marshal(out)
@@ -981,7 +986,7 @@ func c12CompareChild(s *c12Shared, e *c12Env, mode string) int {
 		if mine != v {
 			head, _ := strconv.Unquote(v.Head)
 			s.fail(e, c.text, s.refs[k], c12Res{out: head, err: v.Err, panicked: v.Panicked},
-				"the value computed first in this process differs from the value computed by a fresh process ("+mode+", length:hash "+v.Sum+")")
+				"the value computed in this process before any history (on an emptied printer pool) differs from the value computed by a freshly started process ("+mode+", length:hash "+v.Sum+")")
 		}
 	}
 	return n
@@ -1139,7 +1144,13 @@ func TestVerifBoundedC12(t *testing.T) {
 	defer c12Setup()()
 	thorough := os.Getenv("VERIF_TIER") == "thorough"
 	seed := c12Seed()
+	t0 := time.Now()
+	lap := func(what string) {
+		t.Logf("C12 timing: %s: %.1fs", what, time.Since(t0).Seconds())
+		t0 = time.Now()
+	}
 	s, e := c12NewShared(t, 8)
+	lap("references")
 
 	// (1) fresh-process agreement of the references
 	childCases := c12CompareChild(s, e, "fwd") + c12CompareChild(s, e, "rev")
@@ -1150,6 +1161,7 @@ func TestVerifBoundedC12(t *testing.T) {
 		}
 		childModes += ", and one fresh process per call"
 	}
+	lap("fresh processes")
 	failsBefore := s.fails
 	c12Bounded(map[string]interface{}{
 		"law":   "the value of each catalogue call computed first in the test process equals the value computed by a fresh process (test binary re-executed)",
@@ -1160,7 +1172,7 @@ func TestVerifBoundedC12(t *testing.T) {
 	// (2) sequential histories
 	maxLen, sampled, sMin, sMax := 2, 1500, 3, 5
 	if thorough {
-		maxLen, sampled, sMin, sMax = 3, 20000, 4, 6
+		maxLen, sampled, sMin, sMax = 3, 10000, 4, 6
 	}
 	r := &c12Runner{s: s, e: e, rounds: c12Rounds, seqClean: true}
 	complete := true
@@ -1171,6 +1183,7 @@ func TestVerifBoundedC12(t *testing.T) {
 		}
 		return complete
 	})
+	lap("exhaustive histories")
 	exBlocks, exCalls, exNT := r.blocks, r.calls, r.ntHistory
 	exFails := s.fails - failsBefore
 	c12Bounded(map[string]interface{}{
@@ -1186,6 +1199,7 @@ func TestVerifBoundedC12(t *testing.T) {
 	for k := 0; k < sampled && !s.stopped(); k++ {
 		r.block(c12RandHist(rng, s.hists, sMin, sMax))
 	}
+	lap("sampled histories")
 	c12Bounded(map[string]interface{}{
 		"law":   "same law on longer histories (sampled, VERIF_SEED)",
 		"cases": r.blocks - exBlocks, "nontrivial": r.ntHistory - exNT, "calls_compared": r.calls - exCalls,
@@ -1209,7 +1223,7 @@ func TestVerifBoundedC12(t *testing.T) {
 		confs = nil
 		for _, g := range []int{2, 3, 4, 8, 12, 16} {
 			for _, p := range []int{1, 2, 4, ncpu, 2 * ncpu} {
-				confs = append(confs, conf{g, p, 500, false}, conf{g, p, 250, true})
+				confs = append(confs, conf{g, p, 200, false}, conf{g, p, 100, true})
 			}
 		}
 	}
@@ -1224,6 +1238,7 @@ func TestVerifBoundedC12(t *testing.T) {
 		tot.crossG += st.crossG
 		tot.recycled += st.recycled
 	}
+	lap("goroutines")
 	c12Bounded(map[string]interface{}{
 		"law":   "with up to 16 goroutines printing concurrently, each on its own destinations, every call of every block still returns its fresh-state value (also re-read at the end of the block)",
 		"cases": tot.blocks, "nontrivial": tot.crossG, "calls_compared": tot.calls,
